@@ -114,7 +114,12 @@ func TestVerifBoundedSymmetry(t *testing.T) {
 		}
 		for _, ct := range []ClipType{Intersection, Union, Difference, Xor} {
 			for _, fr := range []FillRule{EvenOdd, NonZero, Positive, Negative} {
-				base := BooleanOpPaths64(ct, v7Copy(subj), v7Copy(clip), fr)
+				base, pan := vcBool(ct, v7Copy(subj), v7Copy(clip), fr)
+				if pan != "" {
+					cases["repeatable"]++
+					report("repeatable", ct, fr, subj, clip, pan)
+					continue
+				}
 				cases["repeatable"]++
 				if again := BooleanOpPaths64(ct, v7Copy(subj), v7Copy(clip), fr); fmt.Sprint(again) != fmt.Sprint(base) {
 					report("repeatable", ct, fr, subj, clip, fmt.Sprintf("first %v second %v", base, again))
@@ -125,7 +130,10 @@ func TestVerifBoundedSymmetry(t *testing.T) {
 					if bad != "" {
 						return
 					}
-					if why := sameRegion(all, base, BooleanOpPaths64(ct, v7Copy(s2), v7Copy(c2), fr2), id); why != "" {
+					r2, pan2 := vcBool(ct, v7Copy(s2), v7Copy(c2), fr2)
+					if pan2 != "" {
+						bad = name + ": " + pan2
+					} else if why := sameRegion(all, base, r2, id); why != "" {
 						bad = name + ": " + why
 					}
 				}
@@ -168,8 +176,10 @@ func TestVerifBoundedSymmetry(t *testing.T) {
 							fr2 = Positive
 						}
 					}
-					res := BooleanOpPaths64(ct, v7Map(subj, m.f), v7Map(clip, m.f), fr2)
-					if why := sameRegion(all, base, res, m.f); why != "" && bad == "" {
+					res, pan3 := vcBool(ct, v7Map(subj, m.f), v7Map(clip, m.f), fr2)
+					if pan3 != "" && bad == "" {
+						bad = m.name + ": " + pan3
+					} else if why := sameRegion(all, base, res, m.f); why != "" && bad == "" {
 						bad = m.name + ": " + why
 					}
 				}
